@@ -12,7 +12,7 @@ from .c03 import snapshot, leftover
 
 ID = 'C17'
 LEVEL = 'fault_enumeration'
-RULE = ('queries {finite flat facts; len/2 on lists of length 5, 20, 60; app/3 splitting a list; nat/1 and even/odd '
+RULE = ('queries {finite flat facts; a fact whose second argument is a 60-element list (the limit strikes inside the element-by-element match, after the first argument was bound) - compiled and as a dynamic fact, against ground lists and lists of variables; len/2 on lists of length 5, 20, 60; app/3 splitting a list; nat/1 and even/odd '
         '(infinitely many answers, each deeper); left recursion lp(X) :- lp(X). lp(a). (diverges before any answer); a '
         'rule with a deep failing branch between answers; registered Python predicates whose clean-up (finally) code needs 0, 3, 12 or 30 nested calls, queried directly and through call/1} x EVERY recursion_limit from 8 to 400 (each value moves the '
         'point at which the limit strikes; quick: every value up to 89, then every 7th) x projection functions {identity, observe the variables, '
@@ -34,7 +34,10 @@ PROGRAM = [
     (F('app', NIL, V('Lx'), V('Lx')), None), (F('app', L([H], T), V('Lx'), L([H], R)), call(F('app', T, V('Lx'), R))),
     (F('nat', A('z')), None), (F('nat', F('s', N)), call(F('nat', N))),
     (F('ev', A('z')), None), (F('ev', F('s', N)), call(F('od', N))), (F('od', F('s', N)), call(F('ev', N))),
-    (F('lp', X), call(F('lp', X))), (F('lp', A('a')), None),
+    (F('lp', X), call(F('lp', X))), (F('lp', A('a')), None), (F('eqq', X, X), None),
+    # a fact with a long ground list behind an ordinary argument: when the limit strikes while the
+    # lists are being matched element by element, the first argument is already bound
+    (F('big', A('first'), L([C(i) for i in range(60)])), None), (F('big', A('second'), L([C(i) for i in range(30)] + [A('x')])), None),
     (F('deep', A('first')), None), (F('deep', X), conj(call(F('len', V('Lg'), F('s', F('s', F('s', A('z')))))), call(F('nat', X)))),
 ]
 
@@ -42,7 +45,16 @@ PROGRAM = [
 PY_DEPTHS = [0, 3, 12, 30]
 
 
+DYN_FACTS = [F('bigd', A('first'), L([C(i) for i in range(60)])), F('bigd', A('second'), L([C(i) for i in range(45)] + [A('x')]))]
+
+
 def register_python(yp):
+    for t in DYN_FACTS:
+        yp.assert_fact(yp.atom(t[1]), [impl.to_engine(yp, x, {}) for x in t[2]])
+    _register_python(yp)
+
+
+def _register_python(yp):
     """Python predicates pygD/1 with three solutions whose clean-up code (a finally block that runs
     when the suspended generator is closed or finished) needs D nested calls of stack"""
     def make(depth):
@@ -74,6 +86,9 @@ def queries():
     return [('flat', F('col', V('Q'))), ('len5', F('len', lst(5), V('Q'))), ('len20', F('len', lst(20), V('Q'))),
             ('len60', F('len', lst(60), V('Q'))), ('app', F('app', V('Q'), V('Q2'), lst(6))), ('nat', F('nat', V('Q'))),
             ('evenodd', F('ev', V('Q'))), ('leftrec', F('lp', V('Q'))), ('deep', F('deep', V('Q')))] + \
+        [('big-dynamic', F('bigd', V('Q'), lst(60))), ('big-variables', F('big', V('Q'), L([V('E%d' % i) for i in range(60)]))),
+         ('big-dynamic-variables', F('bigd', V('Q'), L([V('E%d' % i) for i in range(45)], V('Et')))),
+         ('big', F('big', V('Q'), lst(60))), ('big-tail', F('big', V('Q'), L([C(i) for i in range(30)], V('Q2')))), ('same', F('eqq', lst(60), lst(60)))] + \
         [('pyg%d' % d, F('pyg%d' % d, V('Q'))) for d in PY_DEPTHS] + [('call-pyg12', F('call', F('pyg12', V('Q'))))]
 
 
@@ -245,6 +260,8 @@ def reference():
     for qname, goal in queries():
         ref = Ref(60000, 140)
         ref.consult(PROGRAM + PY_FACTS)
+        for t in DYN_FACTS:
+            ref.assert_fact(t)
         obs = [('v', k) for k in term_vars(goal)]
         answers, st = ref.query(goal, obs, limit=400)
         out[qname] = {'answers': answers, 'complete': st == 'complete'}
